@@ -2008,7 +2008,14 @@ func (c *Cache) additionalAnswer(ctx context.Context, msg *dns.Msg) *dns.Msg {
 
 		cnameReq.Question[0].Name = target
 
-		cnameDepth--
+		// Charge every alias hop this sub-query consumed, not one per
+		// sub-query. The sub-pipeline runs this same chase on its own
+		// response (up to maxCnameChaseDepth levels deep), so a reply can
+		// come back carrying a whole chain; counting that as a single hop
+		// lets each nesting level multiply the ten-hop budget of the level
+		// above it — 10^10 resolutions for one endless chain, with only
+		// the request deadline to end it.
+		cnameDepth -= max(1, chasedAliasHops(respCname))
 
 		// If the chased response already supplied the final
 		// answer alongside the CNAME, stop. Otherwise the next
@@ -2025,6 +2032,21 @@ func (c *Cache) additionalAnswer(ctx context.Context, msg *dns.Msg) *dns.Msg {
 	}
 
 	return msg
+}
+
+// chasedAliasHops counts the alias records a chase response carries: the
+// hops somebody already walked to produce it.
+func chasedAliasHops(res *dns.Msg) int {
+	if res == nil {
+		return 0
+	}
+	hops := 0
+	for _, r := range res.Answer {
+		if r.Header().Rrtype == dns.TypeCNAME {
+			hops++
+		}
+	}
+	return hops
 }
 
 // respCnameHasType reports whether the CNAME-chase response
